@@ -254,3 +254,95 @@ def ascii_ws_domain(text):
             return False
     # ASCII control chars that str.isspace() counts but byte-level \s may not
     return not any(c in text for c in "\x1c\x1d\x1e\x1f")
+
+
+# ---------------------------------------------------------------------
+# W5: strings harvested from the repository's own tests
+
+def test_corpus():
+    import ast
+    import glob
+    import os
+
+    out = []
+    repo = os.environ.get("VMON_REPO", "/repo")
+    for p in sorted(glob.glob(os.path.join(repo, "tests", "*.py"))):
+        try:
+            tree = ast.parse(open(p, encoding="utf8").read())
+        except Exception:
+            continue
+        for node in ast.walk(tree):
+            if isinstance(node, ast.Constant) and isinstance(node.value, str) and len(node.value) >= 6:
+                out.append(node.value)
+    return sorted(set(out))
+
+
+# ---------------------------------------------------------------------
+# W6(b): marked-up legal text
+
+MK_NAMES = ["Halper", "Bae", "Twombly", "Shalala", "Nobelman", "Mancari", "Morton", "Wingler",
+            "Amick", "Zorbex", "Quimby", "Smith", "State", "United States",
+            "Bell Atlantic Corp.", "Liberty Mut. Ins. Co.", "Lissner", "Test Corp", "Roe"]
+MK_REPS = ["U.S.", "U. S.", "S.Ct.", "F.3d", "F.2d", "A.2d", "Mass.", "L.Ed.2d"]
+
+
+def _it(rng, s):
+    t = rng.choice(["i", "em"])
+    return f"<{t}>{s}</{t}>"
+
+
+def mk_full(rng):
+    P, D = rng.choice(MK_NAMES), rng.choice(MK_NAMES)
+    if rng.random() < 0.3:
+        P = word(rng)
+    if rng.random() < 0.3:
+        D = word(rng)
+    style = rng.random()
+    vol, page = rng.randint(1, 600), rng.randint(1, 900)
+    cite = f"{vol} {rng.choice(MK_REPS)} {page}"
+    if rng.random() < 0.4:
+        cite += f", {page + 3}"
+    cite += f" ({rng.choice(['', '7th Cir. ', 'Pa. '])}{rng.randint(1900, 2020)})"
+    if style < 0.4:
+        nm = _it(rng, f"{P} v. {D},")
+    elif style < 0.7:
+        nm = _it(rng, P + " ") + "v. " + _it(rng, D + ", ")
+    elif style < 0.85:
+        nm = f"{P} v. {D},"
+    else:
+        nm = _it(rng, f"{P} v. {D}") + ","
+    return f"{nm} {cite}", (P, D)
+
+
+def mk_ref(rng, n):
+    r = rng.random()
+    if r < 0.4:
+        return "In " + _it(rng, n + rng.choice([",", "", " ", ".", ";", ":"])) + " the court held"
+    if r < 0.6:
+        return _it(rng, n) + f" at {rng.randint(1, 900)}"
+    if r < 0.7:
+        return n + f" at {rng.randint(1, 900)}"
+    if r < 0.8:
+        return _it(rng, n + ", supra") + f", at {rng.randint(1, 900)}"
+    if r < 0.9:
+        return _it(rng, n + ",") + f" {rng.randint(1, 600)} U.S., at {rng.randint(1, 900)}"
+    return _it(rng, "Id.") + f" at {rng.randint(1, 900)}"
+
+
+def markup_doc(rng):
+    parts, seen = [], []
+    for _ in range(rng.randint(1, 6)):
+        if not seen or rng.random() < 0.4:
+            f, (P, D) = mk_full(rng)
+            parts.append(f)
+            seen += [P, D]
+        else:
+            parts.append(mk_ref(rng, rng.choice(seen)))
+        parts.append(rng.choice([". ", "; ", ".</p>\n<p>", " &amp; then ", ".  \n ",
+                                 ". The " + _it(rng, "ex post facto") + " clause. ",
+                                 ". <b>Held:</b> ", " &sect; 5. "]))
+    return "<p>" + "".join(parts) + "</p>"
+
+
+MARKUP_STEPS = [["html", "all_whitespace"], ["html", "inline_whitespace"], ["html"],
+                ["html", "all_whitespace", "underscores"]]
